@@ -85,6 +85,8 @@ type State struct {
 	done     *PathResult
 	hooks    map[string]Value // scratch for intrinsics
 	subst    map[int]*Term    // term id -> constant implied by pc (t == k)
+	retry    bool
+	noConst  map[int]int      // term id -> len(pc) at which tryConst last failed
 }
 
 type inputRec struct {
@@ -134,6 +136,12 @@ func (st *State) clone() *State {
 		n.subst = make(map[int]*Term, len(st.subst))
 		for k, v := range st.subst {
 			n.subst[k] = v
+		}
+	}
+	if st.noConst != nil {
+		n.noConst = make(map[int]int, len(st.noConst))
+		for k, v := range st.noConst {
+			n.noConst[k] = v
 		}
 	}
 	if st.hooks != nil {
@@ -209,7 +217,7 @@ func NewCtx(prog *ssa.Program, cfg Config) *Ctx {
 	c := &Ctx{tb: NewTB(), prog: prog, cfg: cfg, funcs: map[*ssa.Function]int{}, slots: map[*ssa.Function]map[ssa.Value]int{},
 		globals: map[*ssa.Global]int{}, inited: map[*ssa.Package]bool{}, satCache: map[string]satEntry{}, varsOf: map[int][]string{},
 		reachAll: map[string]bool{}, asserts: map[string]int{}}
-	c.solver = NewSolver("z3")
+	c.solver = NewSolver(envOr("GOSMT_SOLVER", "z3"))
 	if c.cfg.Unwind == 0 {
 		c.cfg.Unwind = 64
 	}
@@ -385,7 +393,14 @@ func (c *Ctx) solve(ts []*Term, timeoutMs int) (SatResult, *Model) {
 		c.dumpN++
 	}
 	tq := time.Now()
+	if pd := os.Getenv("GOSMT_PREDUMP"); pd != "" {
+		os.WriteFile(pd, []byte(script+"(check-sat)\n(get-value ("+strings.Join(want, " ")+"))\n"), 0o644)
+	}
 	r, vals, msg := c.solver.Check(script, timeoutMs, want)
+	if ld := os.Getenv("GOSMT_LOGALL"); ld != "" {
+		c.dumpN++
+		os.WriteFile(fmt.Sprintf("%s/q_%05d_%s.smt2", ld, c.dumpN, r), []byte(script), 0o644)
+	}
 	if d := time.Since(tq); d > 500*time.Millisecond && c.cfg.Verbose {
 		fmt.Printf("    slow query %.2fs (%s) terms=%d size=%d\n", d.Seconds(), r, len(ts), len(script))
 		if sd := os.Getenv("GOSMT_SLOWDUMP"); sd != "" {
